@@ -184,7 +184,11 @@ pub broadcast axiom fn ax_mulr_assign<F: PrimeField>(a: F, b: &F)
     ensures #[trigger] <F as MulAssignSpec<&F>>::mul_assign_spec(&a, b) == F::s_mul(a, *b), <F as MulAssignSpec<&F>>::obeys_mul_assign_spec();
 pub broadcast axiom fn ax_mulr_assign_req<F: PrimeField>(a: F, b: &F)
     ensures #[trigger] <F as MulAssignSpec<&F>>::mul_assign_req(&a, b), <F as MulAssignSpec<&F>>::obeys_mul_assign_spec();
+// commutativity as broadcast facts (closed after one step: {ab, ba}); makes contracts insensitive to operand order in the code
+pub broadcast axiom fn ax_mul_comm_b<F: PrimeField>(a: F, b: F) ensures #[trigger] F::s_mul(a, b) == F::s_mul(b, a);
+pub broadcast axiom fn ax_add_comm_b<F: PrimeField>(a: F, b: F) ensures #[trigger] F::s_add(a, b) == F::s_add(b, a);
 pub broadcast group field_ops {
+    ax_mul_comm_b, ax_add_comm_b,
     ax_obeys_add, ax_obeys_sub, ax_obeys_mul, ax_obeys_neg, ax_obeys_add_assign, ax_obeys_sub_assign, ax_obeys_mul_assign, ax_obeys_mulr, ax_obeys_mulr_assign, ax_add, ax_sub, ax_mul, ax_mulr, ax_neg, ax_add_assign, ax_sub_assign, ax_mul_assign, ax_mulr_assign,
     ax_add_req, ax_sub_req, ax_mul_req, ax_mulr_req, ax_neg_req, ax_add_assign_req, ax_sub_assign_req, ax_mul_assign_req, ax_mulr_assign_req,
 }
